@@ -6,6 +6,8 @@ package main
 // in the emitted text map back to the generator's P(...) call sites.
 
 import (
+	"crypto/sha256"
+	"encoding/hex"
 	"fmt"
 	"go/ast"
 	"go/importer"
@@ -52,6 +54,7 @@ type EmittedPkg struct {
 	Info  *types.Info
 	Pkg   *types.Package
 	Funcs map[string]*ast.FuncDecl // "name" or "Recv.name"
+	alias map[string]string        // current emitted name → recorded name (renamed functions)
 	Errs  []string
 }
 
@@ -142,7 +145,162 @@ func (c *Ctx) TypeCheckUnits(units []*Unit, extra string) (*EmittedPkg, error) {
 			}
 		}
 	}
+	ep.resolveRenames()
 	return ep, nil
+}
+
+// ---- emitted functions that survive a rename (see Prog.funcByFingerprint): anchors.json records, under
+// "emitted <name>", a structural fingerprint of each function of the constant server runtime with every identifier
+// declared in the emitted package erased. When a rule asks for a recorded name that the emitted package no longer
+// declares, the one function with that fingerprint whose own name is not recorded is taken, and RecName maps its
+// current name back to the recorded one.
+
+func (ep *EmittedPkg) fingerprint(fd *ast.FuncDecl) string {
+	var b strings.Builder
+	locals := map[types.Object]int{}
+	ast.Inspect(fd, func(n ast.Node) bool {
+		switch x := n.(type) {
+		case nil:
+			b.WriteString(")")
+			return true
+		case *ast.Ident:
+			o := ep.Info.Uses[x]
+			if o == nil {
+				o = ep.Info.Defs[x]
+			}
+			switch {
+			case o == nil:
+				b.WriteString("i:" + x.Name)
+			case o.Pkg() == ep.Pkg && (o.Parent() == ep.Pkg.Scope() || isFieldOrMethod(o)):
+				b.WriteString("R")
+			case o.Pkg() == ep.Pkg:
+				k, ok := locals[o]
+				if !ok {
+					k = len(locals)
+					locals[o] = k
+				}
+				b.WriteString(fmt.Sprintf("L%d", k))
+			default:
+				b.WriteString("x:" + x.Name)
+			}
+		case *ast.BasicLit:
+			b.WriteString("lit:" + x.Value)
+		case *ast.BinaryExpr:
+			b.WriteString("bin" + x.Op.String())
+		case *ast.UnaryExpr:
+			b.WriteString("un" + x.Op.String())
+		case *ast.AssignStmt:
+			b.WriteString("as" + x.Tok.String())
+		case *ast.BranchStmt:
+			b.WriteString("br" + x.Tok.String())
+		case *ast.CommentGroup, *ast.Comment:
+			return false
+		default:
+			b.WriteString(fmt.Sprintf("%T", n))
+		}
+		b.WriteString("(")
+		return true
+	})
+	h := sha256.Sum256([]byte(b.String()))
+	return hex.EncodeToString(h[:12])
+}
+
+func isFieldOrMethod(o types.Object) bool {
+	switch v := o.(type) {
+	case *types.Var:
+		return v.IsField()
+	case *types.Func:
+		sig, _ := v.Type().(*types.Signature)
+		return sig != nil && sig.Recv() != nil
+	}
+	return false
+}
+
+// Fingerprints of all emitted functions, for `sebufcheck anchors`.
+func (ep *EmittedPkg) Fingerprints() map[string]string {
+	out := map[string]string{}
+	for n, fd := range ep.Funcs {
+		if fd.Body != nil {
+			out["emitted "+n] = ep.fingerprint(fd)
+		}
+	}
+	return out
+}
+
+func (ep *EmittedPkg) resolveRenames() {
+	tab := ep.C.P.anchorTable()
+	if len(tab) == 0 || ep.Pkg == nil {
+		return
+	}
+	cur := map[string]string{}
+	for n, fd := range ep.Funcs {
+		if fd.Body != nil {
+			cur[n] = ep.fingerprint(fd)
+		}
+	}
+	for key, want := range tab {
+		if !strings.HasPrefix(key, "emitted ") {
+			continue
+		}
+		rec := strings.TrimPrefix(key, "emitted ")
+		if _, ok := ep.Funcs[rec]; ok {
+			continue
+		}
+		var cands []string
+		for n, fp := range cur {
+			if fp != want {
+				continue
+			}
+			if own, ok := tab["emitted "+n]; ok && own == fp {
+				continue // still itself
+			}
+			cands = append(cands, n)
+		}
+		if len(cands) == 1 {
+			if ep.alias == nil {
+				ep.alias = map[string]string{}
+			}
+			ep.alias[cands[0]] = rec
+			ep.Funcs[rec] = ep.Funcs[cands[0]]
+			delete(ep.Funcs, cands[0])
+		}
+	}
+	if len(ep.alias) == 0 {
+		return
+	}
+	// rules also compare the spelling of calls (types.ExprString(call.Fun)) and of declarations: in our private
+	// copy of the emitted syntax tree every identifier that denotes a renamed function is spelled by its recorded name
+	for _, ef := range ep.Files {
+		ast.Inspect(ef.AST, func(n ast.Node) bool {
+			id, ok := n.(*ast.Ident)
+			if !ok {
+				return true
+			}
+			o := ep.Info.Uses[id]
+			if o == nil {
+				o = ep.Info.Defs[id]
+			}
+			if f, ok := o.(*types.Func); ok && f.Pkg() == ep.Pkg {
+				if rec, ok := ep.alias[f.Name()]; ok && !isFieldOrMethod(f) {
+					id.Name = rec
+				}
+			}
+			return true
+		})
+	}
+}
+
+// RecName: the name under which rules know an emitted function (its recorded name when it was renamed).
+func (ep *EmittedPkg) RecName(f *types.Func) string {
+	if f == nil {
+		return ""
+	}
+	if f.Pkg() == ep.Pkg {
+		if a, ok := ep.alias[f.Name()]; ok {
+			return a
+		}
+	}
+	return f.Name()
 }
 
 // GenPos maps a position in emitted text to the generator's P(...) call site.
